@@ -788,8 +788,6 @@ func (s *impl) onPublish(pkt *mqttp.Publish) (mqttp.IFace, error) {
 	var err error
 	reason := mqttp.CodeSuccess
 
-	aclPerformed := false
-
 	var topicAlias uint16
 
 	if s.version >= mqttp.ProtocolV50 {
@@ -828,7 +826,6 @@ func (s *impl) onPublish(pkt *mqttp.Publish) (mqttp.IFace, error) {
 						}
 
 						topicAlias = 0
-						aclPerformed = true
 					} else {
 						return nil, mqttp.CodeInvalidTopicAlias
 					}
@@ -855,14 +852,15 @@ func (s *impl) onPublish(pkt *mqttp.Publish) (mqttp.IFace, error) {
 	// To deal with V3.1.1 two ways left:
 	//   - ignore the message but send acks
 	//   - return error leading to disconnect
-	if !aclPerformed {
-		if e := s.permissions.ACL(s.id, string(s.username), pkt.Topic(), vlauth.AccessWrite); !errors.Is(e, vlauth.StatusAllow) {
-			reason = mqttp.CodeNotAuthorized
-		}
+	// every PUBLISH is checked on the topic it resolves to, also one that names it through an alias
+	if e := s.permissions.ACL(s.id, string(s.username), pkt.Topic(), vlauth.AccessWrite); !errors.Is(e, vlauth.StatusAllow) {
+		reason = mqttp.CodeNotAuthorized
 	}
 
-	// there is a new topic alias
-	if (reason == mqttp.CodeSuccess) && (topicAlias > 0) {
+	// [MQTT-3.3.2.3.4] a packet that carries topic and alias (re)binds the alias whatever becomes of
+	// its message: bound only when authorised, a refused packet would leave the alias on its OLD
+	// topic and what the client sends under it afterwards would be routed there
+	if topicAlias > 0 {
 		s.rx.topicAlias[topicAlias] = pkt.Topic()
 	}
 
